@@ -187,6 +187,22 @@ def run(prop, specs, tier, seed, log_dir, known_keys):
             else:
                 unit["status"] = "inconclusive"
                 res["inconclusive"].append(f"{name}: native replay could not run: {out[-300:]}")
+        # cross-validation against the implementation: when the spec found nothing, its native scenarios must agree
+        validated = 0
+        if unit["status"] == "ok" and not by_key:
+            for sc, sargs in getattr(mod, "SCENARIOS", []):
+                ok, out = native_replay(sc, sargs, log_dir)
+                if ok is False:
+                    validated += 1
+                elif ok is True:
+                    unit["status"] = "inconclusive"
+                    res["inconclusive"].append(f"{name}: the spec reports no violation but the native scenario '{sc} {' '.join(sargs)}' reproduces one "
+                                               f"against the real build (the spec misses a behaviour): {out.splitlines()[-1] if out else ''}")
+                else:
+                    res["inconclusive"].append(f"{name}: native scenario '{sc}' could not run: {out[-200:]}")
+                    unit["status"] = "inconclusive"
+            unit["native_scenarios_agreeing"] = validated
+        res["stats"]["traces_validated_against_impl"] = res["stats"].get("traces_validated_against_impl", 0) + validated
         res["units"].append(unit)
         res["stats"].setdefault("states", 0)
         res["stats"]["states"] += stats.get("driver_paths", 0) + stats.get("stream_paths", 0) + stats.get("states", 0)
